@@ -329,3 +329,38 @@ func normTx(o jobj) string {
 	b, _ := json.Marshal(c) // map keys are sorted by encoding/json
 	return string(b)
 }
+
+// deepProofFacts: the v0.10 response flag INCLUDE_PROOF_FACTS. Without it no transaction shows
+// proof_facts; with it an INVOKE v3 shows exactly its proof facts (an empty list when it has
+// none) and a transaction that is not an INVOKE shows none.
+func deepProofFacts(o jobj, tx core.Transaction, flag bool) (p problems) {
+	defer p.catch("proof_facts")
+	got, has := o["proof_facts"]
+	inv, isInvoke := tx.(*core.InvokeTransaction)
+	switch {
+	case !flag:
+		if has {
+			p.addf("proof_facts: present although INCLUDE_PROOF_FACTS was not requested")
+		}
+	case !isInvoke:
+		if has {
+			p.addf("proof_facts: present on a transaction that is not an INVOKE")
+		}
+	case inv.TxVersion().Is(3):
+		if !has {
+			p.addf("proof_facts: missing on an INVOKE v3 although requested")
+			return p
+		}
+		l := listOf(got, "proof_facts")
+		if len(l) != len(inv.ProofFacts) {
+			p.addf("proof_facts: want %d elements got %d", len(inv.ProofFacts), len(l))
+			return p
+		}
+		for i := range l {
+			if g := feltOf(l[i], "proof_facts"); g != hx(&inv.ProofFacts[i]) {
+				p.addf("proof_facts[%d]: want %s got %s", i, hx(&inv.ProofFacts[i]), g)
+			}
+		}
+	}
+	return p
+}
